@@ -9,7 +9,7 @@
    docs/fixes/C14_*.diff applied (`FIXED4`: the first four, i.e. the tree after commits 2ca076d..820ad9a), `UNFIXED` the code of the unchanged tree.  `sg` = signedness of plain char. *)
 From Coq Require Import List ZArith Bool.
 Import ListNotations.
-From V Require Import Base.Bytes Gen.C14Vars C14.Model C14.Proofs C14.Fields.
+From V Require Import Base.Bytes Gen.C14Vars C14.Model C14.Proofs C14.Fields C14.Split.
 Local Open Scope Z_scope.
 
 (* Memory safety of the repaired handler, for every sequence of segments of any content and length, any
@@ -178,6 +178,47 @@ Theorem C14_margin_exact : forall c i p, len c = CFG_SIZE -> 0 <= i < 4 ->
   s8 (nthz (margin c i p) (O_AdditionalTimeMargin + i)) = (if short_num p && (-1 <=? v) && (v <=? 100) then v else -1).
 Proof. exact margin_exact. Qed.
 Print Assumptions C14_margin_exact.
+
+(* ---- the exact boundary of the known finding request-split-across-tcp-segments ----
+   Positive side: headers in one TCP segment and the form body in the next one (what browsers do) is EXACTLY the
+   unsplit request: for every fresh connection (dpv d = pv0) of a dev_ok device, every header part H (begins with
+   "POST / HTTP", '='-free, its only CRLFCRLF found by the header-end loop) and every body b that does not begin with
+   '=' in its first three bytes, the second call returns the same device state (stored configuration, user_cmd,
+   parser state) and the same result (response, saved, restarts, faults) as the single call on H ++ b; the header
+   segment itself answers nothing and saves nothing. *)
+Theorem C14_split_headers_body : forall sg d H b,
+  dev_ok d -> dpv d = pv0 -> hdr_ok H -> body_ok b ->
+  let '(d1, r1) := recv FIXED sg d H in
+  recv FIXED sg d1 b = recv FIXED sg d (H ++ b) /\
+  codes r1 = [] /\ saved r1 = false /\ restarts r1 = 0 /\ dcfg d1 = dcfg d.
+Proof. exact C14_split_headers_body_thm. Qed.
+Print Assumptions C14_split_headers_body.
+
+(* ... and so is a cut inside the '='-free headers, behind the request-line prefix and before the header end. *)
+Theorem C14_split_inside_headers : forall sg d a h2 b,
+  dev_ok d -> dpv d = pv0 -> hdr_ok (a ++ h2) ->
+  is_prefix (s_post ++ s_url) a = true -> count_hdr_end (S (length a)) FIXED a 0 = 0 ->
+  count_hdr_end (S (length h2)) FIXED h2 0 = 1 -> body3 b ->
+  let '(d1, r1) := recv FIXED sg d a in
+  recv FIXED sg d1 (h2 ++ b) = recv FIXED sg d ((a ++ h2) ++ b) /\
+  codes r1 = [] /\ saved r1 = false /\ restarts r1 = 0 /\ dcfg d1 = dcfg d.
+Proof. exact C14_split_inside_headers_thm. Qed.
+Print Assumptions C14_split_inside_headers.
+
+(* Negative side: each other kind of cut changes the saved configuration for a concrete request — inside the request
+   line, inside CRLFCRLF, inside a name, inside a value, and also AT a token boundary `&` (the fields of a first part
+   with fewer than four fields are lost); the two benign cuts of the same request give the same result.  The
+   token-boundary and in-value witnesses are replayed on the real code (corpus/C14/split_*.txt). *)
+Theorem C14_split_refuted :
+  differs 2 = true /\ differs (len req_hdr - 2) = true /\ differs (len req_hdr + 5) = true /\
+  differs (len req_hdr + 2) = true /\ differs (len req_hdr + 14) = true /\
+  differs (len req_hdr) = false /\ differs 13 = false.
+Proof. exact C14_split_refuted_thm. Qed.
+Print Assumptions C14_split_refuted.
+
+Example C14_split_hypotheses_satisfiable : hdr_ok req_hdr /\ body_ok body4.
+Proof. exact w_hdr_ok. Qed.
+Print Assumptions C14_split_hypotheses_satisfiable.
 
 (* the hypothesis of C14_no_fault is satisfiable: the blank device *)
 Example C14_dev_ok_satisfiable : dev_ok {| dcfg := zeros CFG_SIZE; dcmd := None; dpv := pv0 |}.
